@@ -22,11 +22,8 @@ from fractions import Fraction
 
 from common import err_kind, frac_token, lst
 
-# predicates that the UNCHANGED /repo fails (reported to the maintainer, not yet in known_findings.json): turned into notes
-#   C11:quantis-lm1-left-not-rejected-early — quantis_swap_zero has no λ₋₁ early reject (Lean:
-#   Infretis.C11.quantis_lm1_left_not_rejected_counterexample); check_config means to forbid quantis + lambda_minus_one but
-#   `if quantis and lambda_minus_one:` lets lambda_minus_one = 0.0 through (setup.py:236)
-PENDING_FINDINGS = {"C11:quantis-lm1-left-not-rejected-early"}
+# predicates that the UNCHANGED /repo fails and that are reported but not yet in known_findings.json (turned into notes)
+PENDING_FINDINGS = set()
 
 NEG = -10**6     # stands for -inf on the model side (below every order value used here)
 PAD = 9            # length of the padding that keeps a scripted MD program "running"
@@ -1284,6 +1281,74 @@ def balance_block(ctx, W, have_model):
 _TABLES = [None]
 
 
+def _quantis_lm1_config(quantis, lm1):
+    ts = {"maxlength": 100, "allowmaxlength": False, "zero_momentum": False, "n_jumps": 2}
+    if quantis is not None:
+        ts["quantis"] = quantis
+    if lm1 is not None:
+        ts["lambda_minus_one"] = lm1
+    eng = {"class": "turtlemd", "engine": "turtlemd", "timestep": 0.002, "temperature": 0.1, "subcycles": 1}
+    return {"runner": {"workers": 1, "wmdrun": ["x"]},
+            "simulation": {"interfaces": [0.5, 0.7, 0.9], "steps": 10, "seed": 0, "load_dir": "load",
+                           "shooting_moves": ["sh", "sh", "sh"], "tis_set": ts},
+            "engine": dict(eng), "engine0": dict(eng), "orderparameter": {"class": "Distance", "index": [0, 1]},
+            "output": {"data_dir": "./", "screen": 1, "pattern": False, "delete_old": False}}
+
+
+def run_quantis_lm1_config(quantis, lm1):
+    """the REAL setup_config (which calls check_config) on a written infretis.toml, then the real REPEX_state.initiate_ensembles:
+    'reject' | 'pass <L in start_cond of [0-]> <R in …>' | 'error:<kind>'"""
+    import importlib.util  # noqa: F401
+    import tomli_w
+    from infretis.classes.repex import REPEX_state
+    from infretis.setup import TOMLConfigError, setup_config
+    d = tempfile.mkdtemp(prefix="c11_cfg_", dir="/dev/shm" if os.path.isdir("/dev/shm") else None)
+    cwd = os.getcwd()
+    os.chdir(d)
+    try:
+        with open("infretis.toml", "wb") as fh:
+            fh.write(tomli_w.dumps(_quantis_lm1_config(quantis, lm1)).encode())
+        try:
+            cfg = setup_config("infretis.toml")
+        except TOMLConfigError as e:
+            return "reject" if "quantis" in str(e) else "error:other-config-error:" + str(e)[:60]
+        st = REPEX_state(cfg, minus=True)
+        st.initiate_ensembles()
+        sc = set(st.ensembles[0]["start_cond"])
+        return f"pass {int('L' in sc)} {int('R' in sc)}"
+    except Exception as e:  # noqa: BLE001
+        return "error:" + err_kind(e)
+    finally:
+        os.chdir(cwd)
+        shutil.rmtree(d, ignore_errors=True)
+
+
+def config_block(ctx, have_model, only=None):
+    """the precondition of the QuanTIS clauses, end to end (Infretis.C11.quantis_runs_without_lm1): no configuration with QuanTIS
+    AND a λ₋₁ — 0.0 included (fix b3eda5b) — gets past the real setup_config / check_config"""
+    combos = [(q, l) for q in (True, False, None) for l in (None, 0.0, -0.5, -0.0, -3.0)]
+    lines, codes = [], []
+    for (q, l) in combos:
+        if only is not None and [q, l] != list(only):
+            continue
+        got = run_quantis_lm1_config(q, l)
+        ctx.count(1, branch=f"config:quantis={q}:lm1={'absent' if l is None else l}:{got.split(':')[0].split(' ')[0]}")
+        if q and l is not None and got != "reject":
+            ctx.fail("C11:quantis-lm1-left-not-rejected-early",
+                     f"a configuration with quantis = true and lambda_minus_one = {l!r} is not rejected by setup_config / check_config "
+                     f"({got}): quantis_swap_zero has no λ₋₁ early reject — a [0-] path that ended on the left would be propagated "
+                     f"and can be accepted (Infretis.C11.quantis_lm1_left_not_rejected_counterexample)",
+                     {"config": {"quantis": q, "lambda_minus_one": l}})
+        if got.startswith("error"):
+            ctx.fail("C11:config-probe-error", f"quantis={q} lambda_minus_one={l}: {got}", {"config": {"quantis": q, "lambda_minus_one": l}})
+        lines.append(f"qlm1cfg {int(bool(q))} {'-' if l is None else frac_token(l)}")
+        codes.append(got)
+    if have_model and lines:
+        for ln, cl, ml in zip(lines, codes, ctx.driver(lines)):
+            if cl != ml:
+                ctx.disagree({"line": ln}, cl, ml)
+
+
 def check_case(ctx, c, r):
     """property predicates on the real output `r` of case `c` (incl. the status tables / draw position); returns branch label"""
     br = _check_case(ctx, c, r)
@@ -1341,13 +1406,11 @@ def _check_case(ctx, c, r):
         return "early-0-L"
     if kind == "quantis" and e0["sc"] == (True, True) and ordered(e0) and len(c["old0"]) >= 2 and c["old1"] \
             and c["old0"][-1][0] <= e0["i"][0] and (r["reqs"] or r["accept"]):
-        sig = "C11:quantis-lm1-left-not-rejected-early"
-        msg = (f"QuanTIS, λ₋₁ variant, [0-] path ending left of λ₋₁: accept={r['accept']} status={r['status']} "
-               f"engine requests={len(r['reqs'])} (retis_swap_zero rejects this path '0-L' without propagation)")
-        if sig in PENDING_FINDINGS:
-            ctx.hit(f"pending:{sig}" + (":accepted" if r["accept"] else ""))
-        else:
-            ctx.fail(sig, msg, rep)
+        # quantis_swap_zero has no λ₋₁ early reject (Infretis.C11.quantis_lm1_left_not_rejected_counterexample); a direct call on
+        # a [0-] ensemble WITH λ₋₁ is a state no accepted configuration produces (check_config, fix b3eda5b; judged end to end
+        # by config_block below): model-vs-code comparison only, not a property failure
+        ctx.hit("quantis:direct call with λ₋₁, path ended on the left (unreachable configuration; model comparison only)"
+                + (":accepted" if r["accept"] else ""))
     if r["accept"] != (r["status"] == "ACC"):
         ctx.fail("C11:accept-status-mismatch", f"accept={r['accept']} with status {r['status']}", rep)
     if not r["accept"]:
@@ -1673,6 +1736,7 @@ def _run(ctx, W):
     _TABLES[0] = spec_tables(ctx) if have_model else None
     if _TABLES[0] is None:
         ctx.hit("note: status-table predicates run without the Lean spec tables (driver unavailable): draw positions only")
+    config_block(ctx, have_model)
     # ------------------------------------------------------------------ retis
     cases = retis_cases(ctx)
     results = []
@@ -1863,8 +1927,9 @@ def _run(ctx, W):
         "membership / swap-twice predicates are evaluated for maxlen0 ≤ maxlen1 (both come from the same tis_set dict in every configuration) and MD programs that do not end before maxlen "
         "(scripted engines: by construction of the script; the real in-process engines TurtleMD / ASE: Infretis.C11.inproc_offers_maxlen + the frame count and "
         "the length-limit sweep of harness/props/c11_real.py; external engines (GROMACS, LAMMPS, CP2K): C12's loop models)",
-        "quantis_swap_zero with the λ₋₁ variant is outside the QuanTIS theorems' intended domain (check_config forbids the combination, except that a λ₋₁ of 0.0 "
-        "slips through — pending finding, Infretis.C11.quantis_lm1_left_not_rejected_counterexample)",
+        "QuanTIS runs without λ₋₁ (Infretis.C11.quantis_runs_without_lm1): judged end to end on the real setup_config/check_config + "
+        "initiate_ensembles for quantis × λ₋₁ ∈ {absent, 0.0, −0.0, −0.5, −3.0}; direct calls of quantis_swap_zero on a λ₋₁ ensemble are "
+        "compared with the model only (no early reject there: quantis_lm1_left_not_rejected_counterexample)",
         "`generated`, `time_origin`, `path_number` of the new paths are not compared",
         "object state / call history is a tie-only statement (the model is a pure function): long-lived engine objects (two objects, "
         "or one object serving both ensembles), long-lived ens_set dicts and reused scratch-file names are compared with fresh objects "
@@ -1886,6 +1951,10 @@ def replay(ctx, obj):
     if "real" in r:
         from props import c11_real
         return c11_real.replay(ctx, r["real"])
+    if "config" in r:
+        before = len(ctx.fails)
+        config_block(ctx, False, only=(r["config"]["quantis"], r["config"]["lambda_minus_one"]))
+        return 1 if len(ctx.fails) > before else 0
     if "turtle" in r:
         # the real-engine block is regenerated from a fixed seed (its inputs are trajectories the engines produce)
         import random
